@@ -588,6 +588,60 @@ def defaults_family(run, tier, seed):
             run.fail(dict(case, after=s), "json_reader changed the caller's schema (defaults consumed)", kind="oracle")
 
 
+def namesake_union_family(run, tier, seed):
+    """unions whose branches share a label's last component: a named type without a namespace beside ns.<same name>, and an
+    unnamed branch ("map", "long", "array") beside a named type called ns.map / ns.long / ns.array — in both orders, at the
+    top level and inside arrays, maps and record fields.  Reference: the binary round trip of the same data."""
+    def rec(name, fields):
+        return {"type": "record", "name": name, "fields": [{"name": f, "type": "int"} for f in fields]}
+    groups = [
+        ([rec("Point", ["lo", "hi"]), rec("geo.Point", ["lo"])], [("Point", {"lo": 1, "hi": 2}), ("geo.Point", {"lo": 3})]),
+        ([rec("geo.Point", ["lo"]), rec("Point", ["lo", "hi"])], [("Point", {"lo": 1, "hi": 2}), ("geo.Point", {"lo": 3})]),
+        ([rec("Point", ["lo"]), rec("geo.Point", ["lo", "hi"]), rec("a.b.Point", ["z"])],
+         [("Point", {"lo": 1}), ("geo.Point", {"lo": 3, "hi": 4}), ("a.b.Point", {"z": 5})]),
+        ([{"type": "enum", "name": "Color", "symbols": ["RED", "GREEN"]}, {"type": "enum", "name": "paint.Color", "symbols": ["BLUE"]}],
+         [("Color", "RED"), ("paint.Color", "BLUE"), ("Color", "GREEN")]),
+        ([{"type": "fixed", "name": "Id", "size": 2}, {"type": "fixed", "name": "k.Id", "size": 3}], [("Id", b"ab"), ("k.Id", b"abc")]),
+        ([{"type": "map", "values": "int"}, rec("x.map", ["a"])], [{"k": 1}, ("x.map", {"a": 2})]),
+        ([rec("x.map", ["a"]), {"type": "map", "values": "int"}], [{"k": 1}, ("x.map", {"a": 2})]),
+        (["long", rec("n.long", ["a"])], [7, ("n.long", {"a": 2})]),
+        ([{"type": "array", "items": "int"}, {"type": "enum", "name": "q.array", "symbols": ["A"]}], [[1, 2], ("q.array", "A")]),
+        (["string", {"type": "enum", "name": "q.string", "symbols": ["A"]}], ["A", ("q.string", "A")]),
+        (["null", rec("Point", ["lo", "hi"]), rec("geo.Point", ["lo"])], [None, ("Point", {"lo": 1, "hi": 2}), ("geo.Point", {"lo": 3})]),
+    ]
+    for u, data in groups:
+        for place in ("top", "array", "map", "field"):
+            if place == "top":
+                sch, recs = u, data
+            elif place == "array":
+                sch, recs = {"type": "array", "items": u}, [data, list(reversed(data)), []]
+            elif place == "map":
+                sch, recs = {"type": "map", "values": u}, [{"k%d" % i: d for i, d in enumerate(data)}]
+            else:
+                sch, recs = {"type": "record", "name": "Holder", "fields": [{"name": "u", "type": u}, {"name": "n", "type": "int"}]}, \
+                    [{"u": d, "n": i} for i, d in enumerate(data)]
+            case = {"schema": sch, "records": to_wire(recs), "tags": ["namesake-union", place]}
+            run.count(case, True, ["namesake-union:" + place])
+            try:
+                ref = []
+                for rcd in recs:
+                    bo = io.BytesIO()
+                    schemaless_writer(bo, copy.deepcopy(sch), rcd)
+                    ref.append(to_wire(schemaless_reader(io.BytesIO(bo.getvalue()), copy.deepcopy(sch))))
+            except Exception as e:  # noqa
+                run.fail(dict(case, binary="ERR:" + exc_class(e)), "binary round trip of a namesake union failed", kind="oracle")
+                continue
+            it = impl_json(sch, recs)
+            if "text" not in it:
+                run.fail(dict(case, impl=it), "conforming datum (namesake union): json_writer raised %s" % it.get("err"), kind="oracle")
+                continue
+            back = impl_read(sch, it["text"])
+            if "ok" not in back or by_value(canon({"l": back["ok"]})) != by_value(canon({"l": ref})):
+                run.fail(dict(case, text=it["text"][:300], read_back=back, binary=ref),
+                         "records decoded from JSON differ from the records decoded from the binary encoding (union branches that share a last name component)",
+                         kind="oracle")
+
+
 def run(tier, seed):
     run = Run("C15", tier, seed)
     run.rule = ("schemas of the generator (every top-level kind, nested arrays/maps/unions/records, by-name references, "
@@ -707,6 +761,7 @@ def run(tier, seed):
     corpus_cases(run)
     machine_correspondence(run, tier, seed)
     defaults_family(run, tier, seed)
+    namesake_union_family(run, tier, seed)
     empty_list_family(run, tier, seed)
     big_output_family(run, tier, seed)
     positioned_stream_family(run, tier, seed)
